@@ -68,7 +68,11 @@ impl Generator {
         // every iteration removes at least one item, so the loop terminates
         while self.state.stack.len() > 1 {
             let stack_len = self.state.stack.len();
-            if stack_len >= 3 {
+            if matches!(self.state.version, Version::V0 | Version::V1) {
+                // TUPLE2/TUPLE3 only exist from protocol 2 on; protocols 0 and 1 drop the
+                // surplus items with POP instead
+                self.emit_opcode(Pop);
+            } else if stack_len >= 3 {
                 self.emit_opcode(Tuple3);
             } else if stack_len == 2 {
                 self.emit_opcode(Tuple2);
